@@ -326,7 +326,11 @@ func c12Check(cs c12Case) core.Outcome {
 		src := cs.Srcs[len(cs.Srcs)-1]
 		return core.Outcome{Key: key, Desc: fmt.Sprintf("edit=%s extras=%v shared=%v files=%d\n", cs.Edit, cs.Extras, cs.Shared, len(cs.Srcs)) + fmt.Sprintf(f, a...) + "\nlast input:\n" + src}
 	}
-	handDecorated := strings.HasPrefix(cs.Edit, "fill-") || strings.HasPrefix(cs.Edit, "one:")
+	// comment-versus-token order is compared only for unedited parsed trees: there the printed text is
+	// the canonical input itself; in edited or hand-decorated trees go/printer may legitimately emit a
+	// comment later than its position (after a token it writes without consulting positions, or after
+	// the list when a multi-line comment would break an index list)
+	handDecorated := cs.Edit != "none"
 	res := decorator.NewRestorer()
 	res.Extras = cs.Extras
 	if cs.Shared {
